@@ -392,6 +392,10 @@ def main(argv=None):
     subs = prop.subs
     if a.only:
         names = set(a.only.split(","))
+        unknown = names - {s.name for s in subs}
+        if unknown:
+            print(f"HARNESS-ERROR: unknown sub-check(s) {sorted(unknown)}; available: {[s.name for s in subs]}")
+            return 2
         subs = [s for s in subs if s.name in names]
     jobs = []
     for s in subs:
